@@ -594,3 +594,149 @@ func ambiguousStats(recs [][]opRec) bool {
 	}
 	return false
 }
+
+// checkIteration (C15, cache level): All/Keys/Values are weakly consistent — no key twice, nothing that was
+// removed or replaced before the iteration began, every key present for the whole call is yielded.
+// Only meaningful for caches that remove nothing on their own (unbounded, no expiry).
+func checkIteration(x *Exec, r *Rig, p concParams, setup []opRec, recs [][]opRec) {
+	if p.Cfg.MaxSize > 0 || p.Cfg.MaxWeight > 0 || p.Cfg.Expiry != "" {
+		return
+	}
+	lbl := "@" + p.Label
+	type write struct {
+		key, val        int
+		present         bool
+		prevVal         int
+		prevFound       bool
+		call, ret       int64
+		consumedUnknown bool
+	}
+	var writes []write
+	init := map[int]int{}
+	add := func(rc opRec, isSetup bool) {
+		f := opFields(rc.op)
+		if rc.res.Panic != "" || len(f) < 2 || strings.Contains(f[1], ",") {
+			return
+		}
+		k := atoi(f[1])
+		w := write{key: k, call: rc.call, ret: rc.ret}
+		switch f[0] {
+		case "set":
+			w.val, w.present = rc.res.Int, true
+			w.prevVal, w.prevFound = rc.res.Val, !rc.res.OK
+		case "sia":
+			if !rc.res.OK {
+				return
+			}
+			w.val, w.present = rc.res.Int, true
+		case "cw":
+			w.val, w.present = rc.res.Int, true
+			w.prevVal, w.prevFound = rc.res.SawVal, rc.res.SawOK
+		case "ci":
+			w.prevVal, w.prevFound = rc.res.SawVal, rc.res.SawOK
+			if !w.prevFound {
+				return
+			}
+		case "inv":
+			if !rc.res.OK {
+				return
+			}
+			w.prevVal, w.prevFound = rc.res.Val, true
+		case "cia":
+			if rc.res.Calls == 0 {
+				return
+			}
+			w.val, w.present = rc.res.Int, true
+		default:
+			return
+		}
+		if isSetup {
+			if w.present {
+				init[k] = w.val
+			} else {
+				delete(init, k)
+			}
+			return
+		}
+		writes = append(writes, w)
+	}
+	for _, rc := range setup {
+		add(rc, true)
+	}
+	for _, rs := range recs {
+		for _, rc := range rs {
+			if opFields(rc.op)[0] == "invall" {
+				return
+			}
+			add(rc, false)
+		}
+	}
+	for _, rs := range recs {
+		for _, rc := range rs {
+			f := opFields(rc.op)
+			var items map[int]int
+			switch f[0] {
+			case "all":
+				items = rc.res.Map
+				if rc.res.Err != "" {
+					x.Fail("iteration-duplicate", "All"+lbl, "%s", rc.res.Err)
+				}
+			case "keys":
+				items = map[int]int{}
+				seen := map[int]bool{}
+				for _, k := range rc.res.List {
+					if seen[k] {
+						x.Fail("iteration-duplicate", "Keys"+lbl, "Keys yielded key %d twice", k)
+					}
+					seen[k] = true
+					items[k] = -1
+				}
+			default:
+				continue
+			}
+			x.Count("iterations-checked")
+			for k, v := range items {
+				if v < 0 {
+					continue
+				}
+				produced := init[k] == v
+				if _, ok := init[k]; !ok {
+					produced = false
+				}
+				for _, w := range writes {
+					if w.key == k && w.present && w.val == v && w.call < rc.ret {
+						produced = true
+					}
+				}
+				consumed := false
+				for _, w := range writes {
+					if w.key == k && w.ret < rc.call && w.prevFound && w.prevVal == v {
+						consumed = true
+					}
+				}
+				if !produced || consumed {
+					x.Fail("iteration-stale", opName(rc.op)+lbl, "%q [%d,%d] yielded %d=%d which was replaced or removed before the iteration began (or was never written)", rc.op, rc.call, rc.ret, k, v)
+				}
+			}
+			must := map[int]bool{}
+			for k := range init {
+				must[k] = true
+			}
+			for _, w := range writes {
+				if w.present && w.ret < rc.call {
+					must[w.key] = true
+				}
+			}
+			for _, w := range writes {
+				if !w.present && w.call < rc.ret {
+					delete(must, w.key)
+				}
+			}
+			for k := range must {
+				if _, ok := items[k]; !ok {
+					x.Fail("iteration-missed", opName(rc.op)+lbl, "%q [%d,%d] did not yield key %d which was present for its whole duration", rc.op, rc.call, rc.ret, k)
+				}
+			}
+		}
+	}
+}
